@@ -8,7 +8,10 @@ package c10
 import (
 	"context"
 	"fmt"
+	"runtime"
 	"strings"
+	"sync"
+	"sync/atomic"
 	"testing"
 	"time"
 
@@ -78,6 +81,7 @@ type op struct {
 	Entry  string
 	Level  int // index into levels (Record)
 	Ctx    int // 0 valued Background, 1 derived (WithCancel), 2 valued TODO, 3 nil
+	Sink   int // config: 0 recorder+console, 1 + rolling file appender, 2 + file appender
 }
 
 func (o op) String() string {
@@ -85,7 +89,7 @@ func (o op) String() string {
 	case "hook":
 		return fmt.Sprintf("hook%d=%v", o.Hook, o.On)
 	case "config":
-		return fmt.Sprintf("config(%s,%q,%s)", o.Logger, ranges[o.Range].s, o.Layout)
+		return fmt.Sprintf("config(%s,%q,%s,sink%d)", o.Logger, ranges[o.Range].s, o.Layout, o.Sink)
 	default:
 		if o.Entry == "Record" {
 			return fmt.Sprintf("Record@%s/ctx%d", levels[o.Level].name, o.Ctx)
@@ -106,7 +110,8 @@ func genOps(t *rapid.T) []op {
 			ops = append(ops, op{K: "hook", Hook: rapid.IntRange(0, 2).Draw(t, "hook"), On: rapid.SampledFrom([]bool{true, true, false}).Draw(t, "on")})
 		case "config":
 			ops = append(ops, op{K: "config", Logger: rapid.SampledFrom([]string{"sync", "async", "builtin"}).Draw(t, "logger"),
-				Range: rapid.IntRange(0, len(ranges)-1).Draw(t, "range"), Layout: rapid.SampledFrom([]string{"TextLayout", "JSONLayout"}).Draw(t, "layout")})
+				Range: rapid.IntRange(0, len(ranges)-1).Draw(t, "range"), Layout: rapid.SampledFrom([]string{"TextLayout", "JSONLayout"}).Draw(t, "layout"),
+				Sink: rapid.SampledFrom([]int{1, 0, 2}).Draw(t, "sink")})
 		default:
 			o := op{K: "call", Entry: rapid.SampledFrom(entries).Draw(t, "entry"), Ctx: rapid.SampledFrom([]int{0, 0, 1, 2, 3}).Draw(t, "ctx")}
 			if o.Entry == "Record" {
@@ -132,6 +137,8 @@ func waitRec(n int) bool {
 	}
 	return false
 }
+
+var scratch = vk.Scratch("c10")
 
 func TestC10_Hooks(t *testing.T) {
 	vk.Rule(rule)
@@ -188,6 +195,15 @@ func TestC10_Hooks(t *testing.T) {
 				lo, hi = ranges[o.Range].lo, ranges[o.Range].hi
 				m := map[string]string{"enableCaller": "false", "appender.rec.type": "Rec", "appender.con.type": "Console", "appender.con.layout.type": o.Layout,
 					"logger.l.tags": "_c10_t", "logger.l.level": ranges[o.Range].s, "logger.l.appenderRef[0].ref": "rec", "logger.l.appenderRef[1].ref": "con"}
+				// further sinks of the same logger: nothing an appender does may call a hook again
+				switch o.Sink {
+				case 1:
+					m["appender.rol.type"], m["appender.rol.fileDir"], m["appender.rol.fileName"], m["appender.rol.rotation"], m["appender.rol.maxAge"] = "RollingFile", scratch, "c10.roll", "h", "10"
+					m["logger.l.appenderRef[2].ref"] = "rol"
+				case 2:
+					m["appender.fil.type"], m["appender.fil.fileDir"], m["appender.fil.fileName"] = "File", scratch, "c10.log"
+					m["logger.l.appenderRef[2].ref"] = "fil"
+				}
 				if o.Logger == "sync" {
 					m["logger.l.type"] = "Logger"
 				} else {
@@ -375,4 +391,66 @@ func TestC10_Hooks(t *testing.T) {
 		vk.Class("final-logger:" + logger + ":" + layout)
 		vk.Sample(map[string]any{"sequence": strings.Join(seq, " ")})
 	})
+}
+
+
+// TestC10_Concurrent: many goroutines emit at the same time while a hook is deliberately slow.
+// Every emitted event must still have had each hook invoked exactly once with its own context.
+func TestC10_Concurrent(t *testing.T) {
+	vk.Rule(rule)
+	type idKey struct{}
+	var tcalls, scalls, fcalls atomic.Int64
+	log.Destroy()
+	vk.ResetRecs()
+	log.TimeNow = func(ctx context.Context) time.Time {
+		tcalls.Add(1)
+		return baseTime.Add(time.Duration(ctx.Value(idKey{}).(int)) * time.Millisecond)
+	}
+	log.StringFromContext = func(ctx context.Context) string {
+		scalls.Add(1)
+		runtime.Gosched()
+		time.Sleep(5 * time.Microsecond) // widen the window in which another goroutine is also inside record()
+		return fmt.Sprintf("cs%d", ctx.Value(idKey{}).(int))
+	}
+	log.FieldsFromContext = func(ctx context.Context) []log.Field {
+		fcalls.Add(1)
+		return []log.Field{log.Int("cid", ctx.Value(idKey{}).(int))}
+	}
+	defer func() {
+		log.Destroy()
+		log.TimeNow, log.StringFromContext, log.FieldsFromContext = nil, nil, nil
+	}()
+	if err := log.Refresh(map[string]string{"enableCaller": "false", "appender.rec.type": "Rec", "logger.l.type": "Logger", "logger.l.tags": "_c10_t", "logger.l.appenderRef.ref": "rec"}); err != nil {
+		t.Fatalf("VERIF-INCONCLUSIVE C10: %v", err)
+	}
+	const G, N = 8, 400
+	var wg sync.WaitGroup
+	for g := 0; g < G; g++ {
+		wg.Add(1)
+		go func() {
+			defer wg.Done()
+			for i := 0; i < N; i++ {
+				id := g*N + i
+				ctx := context.WithValue(context.Background(), idKey{}, id)
+				log.Info(ctx, tag, log.Int("id", id))
+			}
+		}()
+	}
+	wg.Wait()
+	items := vk.Rec("rec").Items()
+	vk.EvalN(int64(len(items)))
+	vk.Class("concurrent-emitters")
+	vk.NonTrivial("concurrent-emitters-8x400")
+	vk.NonTrivial("concurrent-emitters-slow-hook")
+	if tcalls.Load() != G*N || scalls.Load() != G*N || fcalls.Load() != G*N {
+		t.Fatalf("VERIF-VIOLATION C10: %d events emitted concurrently, hooks ran time=%d string=%d fields=%d times (each must run exactly once per emitted event)", G*N, tcalls.Load(), scalls.Load(), fcalls.Load())
+	}
+	if len(items) != G*N {
+		t.Fatalf("VERIF-VIOLATION C10: %d events emitted, %d recorded", G*N, len(items))
+	}
+	for _, it := range items {
+		if it.CtxString != fmt.Sprintf("cs%d", it.ID) || it.CtxJSON != fmt.Sprintf(`{"cid":%d}`, it.ID) || !it.Time.Equal(baseTime.Add(time.Duration(it.ID)*time.Millisecond)) {
+			t.Fatalf("VERIF-VIOLATION C10: under concurrent emission the record of event id=%d carries context string %q, fields %s, time %v - not what the hooks returned for its own context", it.ID, it.CtxString, it.CtxJSON, it.Time)
+		}
+	}
 }
